@@ -101,7 +101,7 @@ func rulePXDict(c *Ctx) []Obligation {
 					if e.Name == c.renderName() && len(e.Args) >= 2 {
 						if e.Args[1].String() == "p1" {
 							got = append(got, "R:"+e.Recv.String())
-						} else if e.Args[1].Op == "alloc" && isBufferPtr(e.Args[1].Typ) {
+						} else if isPrivBuf(e.Args[1]) {
 							got = append(got, "B:"+e.Recv.String())
 						} else {
 							got = append(got, "render to "+e.Args[1].String())
